@@ -23,7 +23,8 @@ Init == /\ h \in DOMAIN H /\ l = 1 /\ pend = {} /\ results = Empty
         /\ mem = Empty /\ store = Empty /\ healthy = TRUE
 
 Call == /\ l <= Len(Evs) /\ Ev.ev = "call"
-        /\ pend' = pend \cup {[op |-> Ev.op, kind |-> Ev.kind, mid |-> Ev.mid, msg |-> Ev.msg]}
+        /\ pend' = pend \cup {[op |-> Ev.op, kind |-> Ev.kind, mid |-> Ev.mid, msg |-> Ev.msg,
+                               boom |-> IF "boom" \in DOMAIN Ev THEN Ev.boom ELSE FALSE]}
         /\ l' = l + 1 /\ UNCHANGED <<h, results, mem, store, healthy>>
 
 Lin == \E o \in pend :
